@@ -40,7 +40,8 @@ fn show(k: &[u8]) -> String {
     }
 }
 
-fn gen_ops(w: &mut Tape, keys: &[usize], n: usize, ttl: bool, blocks_cap: usize, forged: bool, flush_pct: u32) -> Vec<Op> {
+#[allow(clippy::too_many_arguments)]
+fn gen_ops(w: &mut Tape, keys: &[usize], n: usize, ttl: bool, blocks_cap: usize, forged: bool, flush_pct: u32, far_ts: bool) -> Vec<Op> {
     let mut ops = Vec::new();
     for _ in 0..n {
         let key = keys[w.below(keys.len() as u32) as usize];
@@ -54,6 +55,17 @@ fn gen_ops(w: &mut Tape, keys: &[usize], n: usize, ttl: bool, blocks_cap: usize,
             }
         };
         let ts = |w: &mut Tape| match w.below(10) {
+            // C12 profile: versions far ahead of the wall clock, which the clock has to learn
+            // again from the recovered records
+            3 | 4 if far_ts => w
+                .pick(&[
+                    Ts::RelNow(3_600_000_000_000),
+                    Ts::RelNow(86_400_000_000_000 * 365),
+                    Ts::RelCur(1_000_000_000_000),
+                    Ts::MaxMinus(1),
+                    Ts::MaxMinus(1000),
+                ])
+                .clone(),
             0 => Ts::RelCur(1 + w.below(50) as i64),
             1 => Ts::RelNow(1_000_000 * (1 + w.below(50) as i64)),
             2 => Ts::RelCur(-1),
@@ -153,9 +165,9 @@ impl Engine for CrashEngine {
             let n_ops = 4 + w.below(if tier == "thorough" { 40 } else { 24 }) as usize;
             let few = 1 + w.below(4) as usize;
             let mut ops = if racing_flushers {
-                gen_ops(&mut w, &mine, few, ttl, blocks_cap, false, 0)
+                gen_ops(&mut w, &mine, few, ttl, blocks_cap, false, 0, property == "C12")
             } else {
-                gen_ops(&mut w, &mine, n_ops, ttl, blocks_cap, forged, flush_pct)
+                gen_ops(&mut w, &mine, n_ops, ttl, blocks_cap, forged, flush_pct, property == "C12")
             };
             if racing_flushers {
                 let key = mine[w.below(mine.len() as u32) as usize];
@@ -289,8 +301,10 @@ fn client_loop(
     rec: &Recorder,
     problems: &Mutex<Vec<(String, String)>>,
     counters: &Mutex<BTreeMap<String, u64>>,
+    judge_collateral_pins: bool,
 ) {
     let mut model: Model = harness::new_model(cfg);
+    model.cfg.judge_collateral_pins = judge_collateral_pins;
     let mut resolver = Resolver {
         keys,
         writer,
@@ -449,6 +463,7 @@ fn run_workload(sim: &Arc<Sim>, sc: &Scenario, crash_at_call: Option<u64>, repor
     let problems: Arc<Mutex<Vec<(String, String)>>> = Arc::new(Mutex::new(Vec::new()));
     let counters: Arc<Mutex<BTreeMap<String, u64>>> = Arc::new(Mutex::new(BTreeMap::new()));
     let mut handles = Vec::new();
+    let c12 = sc.property == "C12";
     for (ci, ops) in sc.clients.iter().enumerate().skip(1) {
         let (sim2, store2, disk2, cfg2, keys2, ops2, rec2, prob2, cnt2) = (
             Arc::clone(sim),
@@ -463,10 +478,10 @@ fn run_workload(sim: &Arc<Sim>, sc: &Scenario, crash_at_call: Option<u64>, repor
         );
         feoxdb::verif::thread::name_next_spawn("client");
         handles.push(feoxdb::verif::thread::spawn(move || {
-            client_loop(&sim2, &store2, &disk2, &cfg2, &keys2, &ops2, ci as u8, &rec2, &prob2, &cnt2);
+            client_loop(&sim2, &store2, &disk2, &cfg2, &keys2, &ops2, ci as u8, &rec2, &prob2, &cnt2, c12);
         }));
     }
-    client_loop(sim, &store, &disk, &sc.store, &sc.keys, &sc.clients[0], 0, &rec, &problems, &counters);
+    client_loop(sim, &store, &disk, &sc.store, &sc.keys, &sc.clients[0], 0, &rec, &problems, &counters, c12);
     for h in handles {
         let _ = h.join();
     }
@@ -1039,7 +1054,16 @@ pub fn probe_store(sim: &Arc<Sim>, env: &Env, r1: &Contents, label: &str) -> Res
             Err(x) => return Err(e("get of a recovered key", x)),
         }
     }
-    store.delete(&key).map_err(|x| e("delete", x))?;
+    match store.delete(&key) {
+        Ok(()) => {}
+        Err(feoxdb::FeoxError::OlderTimestamp) if store.verif_key(&key).is_some_and(|k| k.timestamp == u64::MAX) => {
+            return Err((
+                "collateral-max-timestamp".into(),
+                format!("[{label}] delete(probe:after-recovery): refused as older on a key nobody pinned: its automatic insert was given the version u64::MAX because a recovered key of the same version-clock shard carries a timestamp next to the maximum"),
+            ));
+        }
+        Err(x) => return Err(e("delete", x)),
+    }
     store.flush().map_err(|x| e("second flush", x))?;
     sim.op_end();
     // durable image == recovered contents (minus keys that expired meanwhile)
